@@ -1,6 +1,7 @@
 """./check configuration for C20."""
 
 PROP = dict(
+    technique='Lean fold theorem for Wrap and pool-ownership LTS with inductive invariant over all interleavings, regenerated statement skeletons incl. defer order; stress + race detector on the implementation',
     race=True,
     module="GolibsVerif.Theorems.C20", namespace="GolibsVerif.C20",
     rule="C20.mw: scenarios of 1..64 concurrent requests (distinct ids in host/method/raddr/request_uri/header/body/context value/"
